@@ -63,7 +63,23 @@ def _c13(ctx):
     r6.floor('loops', n6, 240)
     out.append(r6)
     out.append(eff.rule_flags(ctx, 'X8', T.BAD_FLAGS))
+    from .rules import bounds
+    out.append(_x7(ctx, bounds.CODEC_FILES, 50, 35))
     return out
+
+
+def _x7(ctx, files, fl_idx, fl_proved):
+    from .rules import bounds
+    from .core import RuleResult
+    if ctx.prog.raw.get('precision', 2) != 2:
+        r = RuleResult('X7', 'interval analysis skipped: end points are modelled in IEEE double, which is only faithful '
+                             'for GEOGRAPHICLIB_PRECISION=2')
+        r.ob(True, {'skipped': True})
+        return r
+    r, n, p = bounds.rule_X7(ctx, files)
+    r.floor('array indexes examined', n, fl_idx)
+    r.floor('indexes proved in range', p, fl_proved)
+    return r
 
 
 def _t3(ctx, classes, floor):
@@ -83,7 +99,7 @@ def _c04(ctx):
 
 
 def _c05(ctx):
-    return _exc_rules(ctx, 'C05') + [_t3(ctx, {'MGRS'}, 25)]
+    return _exc_rules(ctx, 'C05') + [_t3(ctx, {'MGRS'}, 25), _x7(ctx, ('src/MGRS.cpp',), 15, 8)]
 
 
 def _c10(ctx):
@@ -94,7 +110,8 @@ def _c10(ctx):
 
 
 def _c18(ctx):
-    return _exc_rules(ctx, 'C18') + [_t3(ctx, {'Geohash', 'GARS', 'Georef', 'OSGB'}, 22)]
+    return _exc_rules(ctx, 'C18') + [_t3(ctx, {'Geohash', 'GARS', 'Georef', 'OSGB'}, 22),
+                                      _x7(ctx, ('src/Geohash.cpp', 'src/GARS.cpp', 'src/Georef.cpp', 'src/OSGB.cpp'), 25, 20)]
 
 
 def _t1(ctx, family, tags=None, floor=1, keep=None):
